@@ -49,7 +49,7 @@ COMPONENTS = {
 }
 FAULT_KINDS = ["oserror_open", "oserror_read", "oserror_mkdir", "torn", "crash", "crash_before", "files_lost_after_crash",
                "hash_seed", "walk_permutation", "creation_order", "prepopulated_output", "relative_paths",
-               "unrelated_files_in_spec_tree", "spec_edited_between_runs", "failed_protocol_py_run_before", "second_generator_object_in_process", "deep_spec_files_edited_before"]
+               "unrelated_files_in_spec_tree", "spec_edited_between_runs", "failed_protocol_py_run_before", "second_generator_object_in_process", "deep_spec_files_edited_before", "types_moved_between_files_before"]
 PROBES = ["walk_order_differs_from_sorted", "fault_on_first_write", "fault_on_last_write", "retry_on_same_instance",
           "torn_init_file", "restart_after_crash", "acronym_or_digit_type_name", "import_check", "second_run_same_instance"]
 SHRINK_KEYS = []
@@ -164,6 +164,28 @@ def edited_variant(tree):
     return out
 
 
+def moved_variant(tree, seed):
+    """The same types declared in other files: an enum and a struct are cut out of their protocol.xml and pasted
+    into another directory's (what the spec looked like before types were moved; caches keyed by type name go stale)."""
+    import re
+    rng = random.Random(seed)
+    out = dict(tree)
+    rels = sorted(tree)
+    for tag in ("enum", "struct"):
+        blocks = [(rel, m.group(0)) for rel in rels
+                  for m in re.finditer(r'[ \t]*<%s name="(?!PacketFamily|PacketAction)[A-Za-z0-9]+"[^>]*>.*?</%s>\n' % (tag, tag), out[rel], re.S)]
+        if not blocks:
+            continue
+        rel, block = rng.choice(blocks)
+        target = rng.choice([r for r in rels if r != rel and not r.startswith(os.path.join("net", "client"))
+                             and not r.startswith(os.path.join("net", "server"))] or [rel])
+        if target == rel:
+            continue
+        out[rel] = out[rel].replace(block, "", 1)
+        out[target] = out[target].replace("</protocol>", block + "</protocol>", 1)
+    return out
+
+
 def run_configs(ctx):
     plan, res = ctx.plan, ctx.res
     tree = plan["tree"]
@@ -199,7 +221,11 @@ def run_configs(ctx):
             return False
     # ---- one generator instance; the spec under its input root is edited between two runs ----------------
     if "edited" in configs:
-        variant = edited_variant(tree)
+        if plan["fault_seed"] % 2:
+            variant = moved_variant(tree, plan["fault_seed"])
+            res.count("fault.types_moved_between_files_before")
+        else:
+            variant = edited_variant(tree)
         xe = ctx.write_xml(variant, "xml_edit")
         o1, o2 = ctx.path("edit1"), ctx.path("edit2")
         rs = ctx.child([{"op": "new", "xml": xe}, {"op": "generate", "out": o1},
